@@ -645,15 +645,21 @@ func (c *ExprCtx) binary(x CBin) TV {
 			}
 			return TV{V: Mul(a, IntBig(pow2(uint(k.Int64()))))}
 		}
-		return TV{V: Mul(a, c.pow2Term(b))}
+		return TV{V: Mul(a, e.pow2Fun(b))}
 	case ">>":
 		if k, ok := litValue(b); ok && k.IsInt64() && k.Int64() < 512 {
 			return TV{V: App(SInt, "div", a, IntBig(pow2(uint(k.Int64()))))}
 		}
-		return TV{V: App(SInt, "div", a, c.pow2Term(b))}
+		return TV{V: App(SInt, "div", a, e.pow2Fun(b))}
 	case "&":
-		if m, ok := litValue(b); ok && isMask(m) {
-			return TV{V: App(SInt, "mod", a, IntBig(new(big.Int).Add(m, big.NewInt(1))))}
+		if m, ok := litValue(b); ok && contiguousMask(m) != nil {
+			return TV{V: andContiguous(a, contiguousMask(m))}
+		}
+		if m, ok := litValue(a); ok && contiguousMask(m) != nil {
+			return TV{V: andContiguous(b, contiguousMask(m))}
+		}
+		if m, ok := litValue(b); ok && fewBits(m) {
+			return TV{V: andWithBits(a, m)}
 		}
 	}
 	c.fail("unsupported binary operator %s in contract", x.Op)
@@ -811,6 +817,13 @@ func (c *ExprCtx) call(x CCall) TV {
 			}
 			n := IntLit(at.Len())
 			return TV{V: &SliceV{Base: e.arrView(a), Off: IntLit(0), Len: n, Cap: n, Elem: at.Elem()}, Typ: types.NewSlice(at.Elem())}
+		case "band64", "bor64", "bxor64", "bandnot64", "band32", "bor32", "bxor32", "band8", "bor8", "bxor8", "band16", "bor16", "bxor16":
+			// Go's bit operators on two non-constant operands: the same uninterpreted symbols the
+			// code encoding uses; bv lemmas give them meaning
+			op := strings.TrimRight(id.Name[1:], "0123456789")
+			w := id.Name[1+len(op):]
+			f := e.s.DeclareFun("bits:"+op+":uint"+w, []string{SInt, SInt}, SInt)
+			return TV{V: App(SInt, f, c.intExpr(x.Args[0]), c.intExpr(x.Args[1]))}
 		case "f64":
 			return TV{V: e.floatOp("i2f", SF, c.intExpr(x.Args[0]))}
 		case "fquo":
